@@ -19,7 +19,9 @@ import (
 //         [u=<milliseconds per clock unit>, default 3600000 (one hour); u=1 gives millisecond positions]
 //         [k=<n> sk=<minutes>: before the script n peers whose version timestamps were off by sk minutes have
 //         been seen (timeSource.AddTimeSample, as OnVersion does); bans run on the LOCAL clock regardless]
-// events: A<k>.<pid>.<h>   a NEW peer object <pid> of kind k (i inbound, o outbound, p persistent
+// events: L<k>.<pid>.<h>   as A, but the add message is handled while the peer's OnVersion listener is still
+//                          running (peerHandler may take the queued message at once)
+//         A<k>.<pid>.<h>   a NEW peer object <pid> of kind k (i inbound, o outbound, p persistent
 //                          outbound) from host <h> is delivered to handleAddPeerMsg
 //         C.<pid>          the connection of peer object <pid> drops (peer.Disconnect())
 //         X.<pid>          peer object <pid> is delivered to handleDonePeerMsg (in production only
@@ -33,17 +35,54 @@ import (
 // /G<group:outboundGroups,..>/B<host:remaining ban units,..> (bans still in force); zero counters are not printed,
 // everything is sorted.  pids are the case's logical pids (the harness maps peer.ID() back).
 
-func c18HostIP(h int) string { return fmt.Sprintf("45.%d.%d.9", 10+h/3, 1+h%3) }
+// IPv6 hosts (indices chosen so that h/3 is their outbound group): an IPv4-mapped address, one link-local
+// address in two zones, two global addresses of one /32.  key = the host string the handlers see
+// (SplitHostPort of sp.Addr()): on HEAD a zone is part of it, so the two zones are two hosts; an inbound
+// IPv4-mapped peer is keyed by its dotted-quad form.
+var c18V6 = map[int][2]string{ // index -> {address handed to the peer, host key}
+	291: {"::ffff:10.0.0.1", "10.0.0.1"},
+	292: {"fe80::1%eth0", "fe80::1%eth0"},
+	293: {"fe80::1%eth1", "fe80::1%eth1"},
+	294: {"2001:db8::1", "2001:db8::1"}, // documentation range: unroutable for addrmgr, inbound only
+	297: {"2a01:4f8::1", "2a01:4f8::1"},
+	298: {"2a01:4f8::2", "2a01:4f8::2"},
+}
+
+func c18HostIP(h int) string {
+	if v, ok := c18V6[h]; ok {
+		return v[0]
+	}
+	return fmt.Sprintf("45.%d.%d.9", 10+h/3, 1+h%3)
+}
+
+// c18HostKey is the key under which the handlers file host h.
+func c18HostKey(h int) string {
+	if v, ok := c18V6[h]; ok {
+		return v[1]
+	}
+	return c18HostIP(h)
+}
 
 func c18HostOfIP(ip string) string {
+	for h, v := range c18V6 {
+		if v[1] == ip {
+			return strconv.Itoa(h)
+		}
+	}
 	var a, b, cc, d int
 	if _, err := fmt.Sscanf(ip, "%d.%d.%d.%d", &a, &b, &cc, &d); err != nil || a != 45 || d != 9 {
-		return "?" + ip
+		return "299" // a key no host of the case is filed under: reported as the pseudo host 299
 	}
 	return strconv.Itoa((b-10)*3 + (cc - 1))
 }
 
 func c18GroupOfKey(k string) string {
+	switch k {
+	case "unroutable": // link-local and private (IPv4-mapped 10.0.0.1) addresses: hosts 291..293
+		return "97"
+	case "2a01:4f8::": // hosts 297, 298
+		return "99"
+	}
 	var a, b, cc, d int
 	if _, err := fmt.Sscanf(k, "%d.%d.%d.%d", &a, &b, &cc, &d); err != nil || a != 45 || cc != 0 || d != 0 {
 		return "?" + k
@@ -107,7 +146,7 @@ func c18RunAdm1(head []string, evs []string) (obs string, reliable bool) {
 	// pre-scan: the attributes of each peer object come from its (first) A token
 	specs := map[int]c18PeerSpec{}
 	for _, e := range evs {
-		if len(e) >= 2 && e[0] == 'A' {
+		if len(e) >= 2 && (e[0] == 'A' || e[0] == 'L') {
 			f := strings.Split(e[2:], ".")
 			if len(f) == 3 && f[0] == "" {
 				pid, e1 := strconv.Atoi(f[1])
@@ -231,6 +270,31 @@ func c18RunAdm1(head []string, evs []string) (obs string, reliable bool) {
 			}
 		}()
 		switch {
+		case len(e) >= 2 && e[0] == 'L':
+			f := strings.Split(e[2:], ".")
+			if len(f) != 3 {
+				return "?"
+			}
+			pid, err := strconv.Atoi(f[1])
+			hh, err2 := strconv.Atoi(f[2])
+			sp, ok := specs[pid]
+			_, exists := handle[pid]
+			if err != nil || err2 != nil || !ok || added[pid] || exists || sp.kind != e[1] || sp.host != hh {
+				return "?"
+			}
+			port := 8333
+			if sp.kind == 'i' {
+				port = 30000 + pid%30000
+			}
+			added[pid] = true
+			reanchor()
+			h, d, perr := a.NewPeerAddInListener(sp.kind, c18HostIP(sp.host), port)
+			if perr != nil {
+				panic("fixture: " + perr.Error())
+			}
+			handle[pid] = h
+			byID[a.PeerID(h)] = pid
+			return fmt.Sprintf("a%d%d", b2i(d), b2i(a.Connected(h)))
 		case len(e) >= 2 && e[0] == 'A':
 			f := strings.Split(e[2:], ".")
 			if len(f) != 3 {
@@ -247,7 +311,7 @@ func c18RunAdm1(head []string, evs []string) (obs string, reliable bool) {
 			t0 := time.Now()
 			reanchor()
 			d := a.Add(h)
-			if e, ok := expU[c18HostIP(sp.host)]; ok {
+			if e, ok := expU[c18HostKey(sp.host)]; ok {
 				left := time.Duration(e-nowU) * c18Unit
 				if left > 0 && left <= 2*time.Millisecond && time.Since(t0) > 400*time.Microsecond {
 					reliable = false
@@ -284,8 +348,8 @@ func c18RunAdm1(head []string, evs []string) (obs string, reliable bool) {
 			if err := a.Ban(c18HostIP(h), 8333); err != nil {
 				return "?"
 			}
-			if left, ok := a.BanLeft(c18HostIP(h)); ok {
-				expU[c18HostIP(h)] = nowU + int64(math.Round(float64(left)/float64(c18Unit)))
+			if left, ok := a.BanLeft(c18HostKey(h)); ok {
+				expU[c18HostKey(h)] = nowU + int64(math.Round(float64(left)/float64(c18Unit)))
 			}
 			return "b"
 		case len(e) >= 2 && e[0] == 'T':
@@ -307,6 +371,8 @@ func c18RunAdm1(head []string, evs []string) (obs string, reliable bool) {
 	}
 	return strings.Join(out, " "), reliable
 }
+
+func mpip(ip int) int { return ip }
 
 func b2i(b bool) int {
 	if b {
@@ -480,6 +546,79 @@ func c18GenAdm(c *Ctx) error {
 			c.Case(in, c18RunAdm(strings.Fields(h3), evs))
 			c.Count("adm:ban-skewed-peers")
 		}
+	}
+
+	// the add message handled inside the OnVersion listener, then the usual life: counters must return to zero
+	for i, n := 0, c.Pick(30, 600); i < n; i++ {
+		var evs []string
+		var live []int
+		pidn := 0
+		for k, m := 0, 3+c.Rng.Intn(6); k < m; k++ {
+			pidn++
+			tok := "L"
+			if c.Rng.Intn(3) == 0 {
+				tok = "A"
+			}
+			evs = append(evs, fmt.Sprintf("%s%c.%d.%d", tok, "iop"[c.Rng.Intn(3)], pidn, c.Rng.Intn(2)))
+			live = append(live, pidn)
+			if c.Rng.Intn(3) == 0 {
+				j := c.Rng.Intn(len(live))
+				evs = append(evs, fmt.Sprintf("C.%d", live[j]), fmt.Sprintf("X.%d", live[j]))
+				live = append(live[:j], live[j+1:]...)
+			}
+		}
+		for _, p := range live {
+			evs = append(evs, fmt.Sprintf("C.%d", p), fmt.Sprintf("X.%d", p))
+		}
+		pidn++
+		evs = append(evs, fmt.Sprintf("Li.%d.0", pidn))
+		emit(evs, "add-inside-listener")
+	}
+
+	// IPv6 hosts in the per-host families: limit reached, peers done, counters back to zero, a later
+	// peer admitted again.  Link-local peers with a zone and the IPv4-mapped host are inbound (an
+	// outbound address with a zone cannot be parsed into a NetAddress).
+	for i, n := 0, c.Pick(40, 800); i < n; i++ {
+		h := []int{292, 293, 297, 291, 298, 294}[i%6]
+		kindsOf := "i"
+		if h >= 297 {
+			kindsOf = "ioo"
+		}
+		var evs []string
+		pidn := 0
+		var live []int
+		for k, m := 0, mpip(ip)+2+c.Rng.Intn(3); k < m; k++ {
+			hh := h
+			if h == 292 && c.Rng.Intn(4) == 0 {
+				hh = 293 // the same address in another zone
+			}
+			if h == 297 && c.Rng.Intn(4) == 0 {
+				hh = 298
+			}
+			pidn++
+			kd := kindsOf[c.Rng.Intn(len(kindsOf))]
+			if hh < 297 {
+				kd = 'i'
+			}
+			evs = append(evs, fmt.Sprintf("A%c.%d.%d", kd, pidn, hh))
+			live = append(live, pidn)
+			if c.Rng.Intn(5) == 0 && len(live) > 0 {
+				j := c.Rng.Intn(len(live))
+				evs = append(evs, fmt.Sprintf("C.%d", live[j]), fmt.Sprintf("X.%d", live[j]))
+				live = append(live[:j], live[j+1:]...)
+			}
+		}
+		if h != 291 && c.Rng.Intn(3) == 0 {
+			evs = append(evs, fmt.Sprintf("B%d", h), "T3")
+			pidn++
+			evs = append(evs, fmt.Sprintf("Ai.%d.%d", pidn, h), "T7")
+		}
+		for _, p := range live {
+			evs = append(evs, fmt.Sprintf("C.%d", p), fmt.Sprintf("X.%d", p))
+		}
+		pidn++
+		evs = append(evs, fmt.Sprintf("Ai.%d.%d", pidn, h))
+		emit(evs, "ipv6-hosts")
 	}
 
 	// (2) seeded random sequences
